@@ -38,7 +38,7 @@ func (propC12) Plan(tier string) (int, int) {
 }
 
 var ksQuick = []int{1, 2, 3, 4, 8, 16}
-var ksThorough = []int{1, 2, 3, 4, 5, 6, 7, 8, 12, 16, 32}
+var ksThorough = []int{1, 2, 3, 4, 5, 6, 7, 8, 10, 11, 12, 16, 32}
 
 // genParallelOp draws an op on an image large enough to enable parallel sections.
 func genParallelOp(r *RNG) Op {
@@ -49,9 +49,17 @@ func genParallelOp(r *RNG) Op {
 		op.Img = GenImgSpec(r, 16, 160, 1)
 		op.Img.H = r.Pick(49, 50, 64, 65, 80, 96, 97, 128, 144, 160)
 		op.Opt = GenLossyOpts(r, 5, true)
-	case v < 90: // lossless: tile thresholds (>=16 tiles), histogram thresholds
+	case v < 90: // lossless: tile thresholds (>=16 tiles), histogram thresholds (>=64, >=256 tiles)
 		op.Img = GenImgSpec(r, 48, 200, 1)
 		op.Opt = GenLosslessOpts(r, 5)
+		if r.Pct(40) {
+			// many histogram tiles, some of them empty (flat / repetitive areas), remap enabled
+			op.Img.W, op.Img.H = r.Range(128, 420), r.Range(128, 320)
+			op.Img.Family = r.PickS("regions", "patch", "text", "pal", "flat", "hgrad")
+			op.Img.Runs = true
+			op.Opt.Quality = float32(r.Pick(90, 95, 100))
+			op.Opt.Method = r.Range(2, 4)
+		}
 	case v < 96: // lossless above the hash-chain threshold (50 000 px)
 		op.Img = GenImgSpec(r, 224, 240, 1)
 		op.Opt = GenLosslessOpts(r, 0)
@@ -85,10 +93,24 @@ func genParallelOp(r *RNG) Op {
 func (propC12) Gen(seed uint64, tier string, idx int) any {
 	r := NewRNG(seed)
 	p := &C12Params{Op: genParallelOp(r)}
+	if r.Pct(6) {
+		a := GenAnimDecodeOp(r)
+		p.Op = Op{Kind: "animdec", AnimDec: &a}
+	} else if r.Pct(4) {
+		p.Op = genAnimEncOp(r)
+	}
 	if tier == "thorough" {
 		p.Ks = ksThorough
 	} else {
-		p.Ks = ksQuick
+		// 1 and 2 always, plus four other worker counts drawn per run
+		p.Ks = []int{1, 2}
+		rest := []int{3, 4, 5, 6, 7, 8, 10, 11, 12, 16}
+		for len(p.Ks) < 6 {
+			i := r.Intn(len(rest))
+			p.Ks = append(p.Ks, rest[i])
+			rest = append(rest[:i], rest[i+1:]...)
+		}
+		sort.Ints(p.Ks)
 	}
 	p.Fidelity = idx%40 == 0
 	return p
@@ -273,6 +295,9 @@ func (propC12) Describe() PropDoc {
 }
 
 func codecFamily(op Op) string {
+	if op.Kind == "animdec" || op.Kind == "animenc" {
+		return "anim"
+	}
 	if op.Opt.Lossless {
 		return "lossless"
 	}
